@@ -8,7 +8,10 @@ CFG = {'allowed_axioms': [],
                  'Resource.IncludeTableProofs',
                  'Resource.IncludeDenoteProofs',
                  'Resource.HeldJudge',
-                 'Resource.Held04Proofs'],
+                 'Resource.Held04Proofs',
+                 'Resource.JudgeSound08',
+                 'Resource.JudgeSound08x',
+                 'Resource.IncludeMatchProofs'],
  'generators': ['C08', 'C08x', 'C08H'],
  'harness_pkg': 'cres',
  'judge_module': 'Resource.Judge',
@@ -40,7 +43,7 @@ CFG = {'allowed_axioms': [],
                'along any chain of described events. Tied to the code by generator C08H (~260 scenarios per run: include x equivalence x mask x '
                'backpressure / lossy, scripted leave / re-enter equivalent / re-enter different / delete / re-add steps; with backpressure the fold '
                'is compared with List(include) after EVERY write up to the equivalence, every event field with the held-map model) and by an '
-               "equivalence drawn for a third of C08's random histories.",
+               "equivalence drawn for a third of C08's random histories. Judge soundness (theorems, all inputs): for generator C08's backpressured cases with ANY options (writable mask, id function, include, mask, equivalence) and ANY observation, agreement with the model implies C08_ok (so verdict 2 cannot occur there; carried across cc_matches/list_eqb/same_map/equiv_map and impl_step -> spec_step on the flat algebra); for C08H the END clause of C08H_ok follows from agreement (marks stay oracle); for C08x: ANY table row that agrees obeys the fold law, the booking predicate's model equals its arithmetic reference for all periods with valid timestamps (inverted included) hence BookList soundness and the listing clause of BookPull, and for the lossy public-API cases the clause 'nothing delivered mentions a rejected version' follows from agreement. Model-level: in both delivery modes, every schedule, every kind and predicate, every delivered change carries only versions the predicate accepts; a change between two rejected versions is never delivered.",
  'theorems': ['C08_decision_table',
               'C08_filtered_fold_is_filtered_list',
               'C08_seed_is_filtered_list',
@@ -66,6 +69,22 @@ CFG = {'allowed_axioms': [],
               'C08_held_fold_is_list_for_equality',
               'C08_held_fold_any_described_chain',
               'C08_held_without_equivalence',
+              'C08_judge_sound_cpull',
+              'C08_judge_sound',
+              'C08_judge_sound_held_partial',
+              'C08_judge_sound_row',
+              'C08_booking_predicate_is_reference',
+              'C08_judge_sound_booklist',
+              'C08_judge_sound_bookpull_partial',
+              'C08_judge_sound_lossy_matching_partial',
+              'C08_judge_sound_nonvacuous_lossy',
+              'C08_judge_sound_nonvacuous',
+              'C08_judge_sound_nonvacuous_equivalence',
+              'C08_judge_sound_nonvacuous_row_and_booking',
+              'C08_delivered_versions_all_match',
+              'C08_include_returns_matching',
+              'C08_stays_out_never_delivered',
+              'C08_nonvacuous_delivered_match',
               'C08_nonvacuous',
               'C08_nonvacuous_lossy_replace',
               'C08_nonvacuous_rep',
